@@ -1,2 +1,4 @@
 import PyDBMLProofs.Props.C13
+import PyDBMLProofs.Props.C16
+import PyDBMLProofs.Props.C17
 import PyDBMLProofs.Props.C18
